@@ -31,10 +31,10 @@ def firstIdx (p : Nat → Bool) : Nat → Nat → Nat
   | fuel + 1, i => if p i then i else firstIdx p fuel (i + 1)
 
 /-- `u64::trailing_zeros`: index of the lowest set bit, `64` for `0` -/
-def trailingZeros64 (x : Nat) : Nat := firstIdx (fun i => x.testBit i) 64 0
+def tzcnt64 (x : Nat) : Nat := firstIdx (fun i => x.testBit i) 64 0
 
 /-- `u64::trailing_ones`: index of the lowest clear bit, `64` for `u64::MAX` -/
-def trailingOnes64 (x : Nat) : Nat := firstIdx (fun i => !x.testBit i) 64 0
+def tocnt64 (x : Nat) : Nat := firstIdx (fun i => !x.testBit i) 64 0
 
 /-! ## (A) bitpage.rs `RangeIter` -/
 
@@ -61,11 +61,11 @@ def PRangeIter.nextRangeInElement (it : PRangeIter) : Option (Nat × Nat) :=
     let elementBit := it.nvtc % 64
     let major := elemFloor it.nvtc
     let mask := not64 (shl64 1 elementBit - 1)
-    let rangeStart := trailingZeros64 (element &&& mask)
+    let rangeStart := tzcnt64 (element &&& mask)
     if rangeStart = ELEM_BITS then none
     else
       let mask := shl64 1 rangeStart - 1
-      let rangeEnd := trailingOnes64 (element ||| mask) - 1
+      let rangeEnd := tocnt64 (element ||| mask) - 1
       some (major + rangeStart, major + rangeEnd)
 
 /-- the `loop` of `RangeIter::next`; loop state = (`current_range`, `self`).  Every `continue`
@@ -217,13 +217,13 @@ def elemIterFrom (elem from_ : Nat) : List Nat :=
 
 /-- `BitPage::iter`: `storage.iter().enumerate().filter(|(_, elem)| **elem != 0).flat_map(|(i,
 elem)| Iter::new(*elem).map(move |idx| i * ELEM_BITS + idx))` -/
-def CPage.iter (p : CPage) : List Nat :=
+def CPage.iterL (p : CPage) : List Nat :=
   (p.elems.zipIdx.filter (fun ei => ei.1 != 0)).flatMap
     (fun ei => (elemIterFrom ei.1 0).map (fun idx => ei.2 * ELEM_BITS + idx))
 
 /-- `BitPage::iter_after(value)`: `storage[start_index..]`, the element at `start_index` is
 iterated from `(value & ELEM_MASK) + 1`, the later ones from 0 -/
-def CPage.iterAfter (p : CPage) (value : Nat) : List Nat :=
+def CPage.iterAfterL (p : CPage) (value : Nat) : List Nat :=
   let startIndex := elementIndex value
   (((p.elems.drop startIndex).zipIdx).filter (fun ei => ei.1 != 0)).flatMap
     (fun ei =>
@@ -244,7 +244,7 @@ def CBitSet.iterNonEmptyPages (s : CBitSet) : List (Nat × CPage) :=
 
 /-- `BitSet::iter`, front to back -/
 def CBitSet.iter (s : CBitSet) : List Nat :=
-  s.iterNonEmptyPages.flatMap (fun mp => mp.2.iter.map (fun v => majorStart mp.1 + v))
+  s.iterNonEmptyPages.flatMap (fun mp => mp.2.iterL.map (fun v => majorStart mp.1 + v))
 
 /-- `BitSet::iter_after(value)`, front to back: `binary_search_by` → `Ok(i)`: partial first page
 `pages[page_map[i].index].iter_after(value)` then the entries from `i + 1`; `Err(i)`: the entries
@@ -255,13 +255,13 @@ def CBitSet.iterAfter (s : CBitSet) (value : Nat) : List Nat :=
   let partialFirstPage := r.1
   let page := (s.pageMap[pageMapIndex]?).bind (fun info => (s.pages[info.2]?).map (fun p => (p, info.1)))
   let initIt := ((page.filter (fun _ => partialFirstPage)).toList).flatMap
-    (fun pm => (pm.1.iterAfter value).map (fun v => majorStart pm.2 + v))
+    (fun pm => (pm.1.iterAfterL value).map (fun v => majorStart pm.2 + v))
   let followOnIndex := if partialFirstPage then pageMapIndex + 1 else pageMapIndex
   let followOnIt :=
     (((s.pageMap.drop followOnIndex).filterMap
         (fun info => (s.pages[info.2]?).map (fun page => (info.1, page)))).filter
         (fun mp => !mp.2.isEmpty)).flatMap
-      (fun mp => mp.2.iter.map (fun v => majorStart mp.1 + v))
+      (fun mp => mp.2.iterL.map (fun v => majorStart mp.1 + v))
   initIt ++ followOnIt
 
 /-- a `DoubleEndedIterator` as the deque of the items it has not yielded yet -/
